@@ -13,14 +13,14 @@ import (
 
 // ScriptCase is one generated task script (Script and Pipeline units).
 type ScriptCase struct {
-	Script string    `json:"script"`
-	Edge   string    `json:"edge"` // stream | batch
-	Vars   []VarSpec `json:"vars,omitempty"`
-	Labels []string  `json:"labels,omitempty"` // generator-side classes (literal forms, comment positions, ...)
-	CmtAdj  bool     `json:"cmt_adj,omitempty"`
-	Witness bool     `json:"witness,omitempty"` // saved witness of a known defect: no law is skipped
-	Law     string   `json:"law,omitempty"`     // Pipeline unit: json | tick (which round trip is checked)
-	Mixed  bool      `json:"mixed,omitempty"` // some lambda has >= 2 operators of different precedence
+	Script  string    `json:"script"`
+	Edge    string    `json:"edge"` // stream | batch
+	Vars    []VarSpec `json:"vars,omitempty"`
+	Labels  []string  `json:"labels,omitempty"` // generator-side classes (literal forms, comment positions, ...)
+	CmtAdj  bool      `json:"cmt_adj,omitempty"`
+	Witness bool      `json:"witness,omitempty"` // saved witness of a known defect: no law is skipped
+	Law     string    `json:"law,omitempty"`     // Pipeline unit: json | tick (which round trip is checked)
+	Mixed   bool      `json:"mixed,omitempty"`   // some lambda has >= 2 operators of different precedence
 }
 
 type prop struct {
@@ -36,21 +36,21 @@ type nodeVar struct {
 }
 
 type sg struct {
-	r     *kit.Rec
-	t     *rapid.T
-	o     *out
-	edge  string
-	vars  map[string][]string // int float dur str bool re lbool lnum list star
-	nodes []nodeVar
-	tmpl  []VarSpec
-	nvar  int
-	mixed bool
-	stmt  bool   // the next identifier starts a statement (canonical layout: new line)
-	last  []prop // properties of the node emitted last
-	piped bool   // the previous token was '|': the next identifier names a node
-	cur   string // node (or alert.handler) whose properties are being written
-	fromWhere bool // the from() node being written already has a .where()
-	law   string // Pipeline unit: "json" | "tick"; the generator avoids what that round trip is known to lose (counted)
+	r         *kit.Rec
+	t         *rapid.T
+	o         *out
+	edge      string
+	vars      map[string][]string // int float dur str bool re lbool lnum list star
+	nodes     []nodeVar
+	tmpl      []VarSpec
+	nvar      int
+	mixed     bool
+	stmt      bool   // the next identifier starts a statement (canonical layout: new line)
+	last      []prop // properties of the node emitted last
+	piped     bool   // the previous token was '|': the next identifier names a node
+	cur       string // node (or alert.handler) whose properties are being written
+	fromWhere bool   // the from() node being written already has a .where()
+	law       string // Pipeline unit: "json" | "tick"; the generator avoids what that round trip is known to lose (counted)
 }
 
 var varNames = []string{"x", "period", "crit", "db", "lambda", "Über", "v", "threshold", "name_1", "w", "data", "idVar", "every", "where_filter"}
@@ -91,10 +91,10 @@ func (s *sg) noteExpr(e *Expr) {
 	}
 }
 
-func (s *sg) kw(w string)  { s.o.emit(tk{s: w, cls: "var"}) }
-func (s *sg) asgn()        { s.o.emit(tk{s: "=", cls: "asgn", ncb: true, nca: true}) }
-func (s *sg) pipe()        { s.o.emit(tk{s: "|", cls: "pipe"}); s.piped = true }
-func (s *sg) dot()         { s.o.emit(tk{s: ".", cls: "dot"}) }
+func (s *sg) kw(w string) { s.o.emit(tk{s: w, cls: "var"}) }
+func (s *sg) asgn()       { s.o.emit(tk{s: "=", cls: "asgn", ncb: true, nca: true}) }
+func (s *sg) pipe()       { s.o.emit(tk{s: "|", cls: "pipe"}); s.piped = true }
+func (s *sg) dot()        { s.o.emit(tk{s: ".", cls: "dot"}) }
 func (s *sg) id(n string) {
 	if s.piped {
 		s.piped = false
@@ -108,7 +108,7 @@ func (s *sg) id(n string) {
 	}
 	s.o.ident(n)
 }
-func (s *sg) lambdaKw()    { s.o.emit(tk{s: "lambda:", cls: "lambda"}) }
+func (s *sg) lambdaKw()                { s.o.emit(tk{s: "lambda:", cls: "lambda"}) }
 func (s *sg) pick(n int, l string) int { return rapid.IntRange(0, n-1).Draw(s.t, l) }
 
 // ---- arguments by type
@@ -394,26 +394,26 @@ var unsupported = map[string]map[string]string{
 	"json": {
 		"|elapsed": "J11 pipeline JSON: MarshalJSON replaces the duration arguments of the live elapsed/holtWinters node by strings (marshalling changes the pipeline)", "|holtWinters": "J11 pipeline JSON: MarshalJSON replaces the duration arguments of the live elapsed/holtWinters node by strings (marshalling changes the pipeline)", "|holtWintersWithFit": "J11 pipeline JSON: MarshalJSON replaces the duration arguments of the live elapsed/holtWinters node by strings (marshalling changes the pipeline)",
 		"~child-of-shadowing-node": "J10 pipeline JSON: children of combine / k8sAutoscale cannot be read back (a struct field named like a chain method, Max/Min, makes the node fail the chain-node interface check)",
-		"|percentile": "J8 pipeline JSON: InfluxQL function nodes with parameters (percentile, top/bottom, movingAverage, elapsed, holtWinters) are read back with zero parameters in their reducers (only the args list is restored)", "|movingAverage": "J8 pipeline JSON: InfluxQL function nodes with parameters (percentile, top/bottom, movingAverage, elapsed, holtWinters) are read back with zero parameters in their reducers (only the args list is restored)",
-		"|top":    "J8 pipeline JSON: InfluxQL function nodes with parameters (percentile, top/bottom, movingAverage, elapsed, holtWinters) are read back with zero parameters in their reducers (only the args list is restored)",
-		"|bottom": "J8 pipeline JSON: InfluxQL function nodes with parameters (percentile, top/bottom, movingAverage, elapsed, holtWinters) are read back with zero parameters in their reducers (only the args list is restored)",
-		"~any-int": "J7 pipeline JSON: an integer value of an untyped property (default/sideload field, fill, handler attribute) is read back as a float",
-		"|barrier": "J6 pipeline JSON: node kind unknown to Unmarshal: barrier",
-		"|trickle": "J6 pipeline JSON: node kind unknown to Unmarshal: trickle",
-		"~star": "J4 pipeline JSON: a '*' group-by dimension is read back as a generic map, not a star node",
-		"|queryFlux": "J3 pipeline JSON: node cannot be read back, a duration is written as a string and decoded as a number: queryFlux.period",
-		"|httpPost":  "J3 pipeline JSON: node cannot be read back, a duration is written as a string and decoded as a number: httpPost.timeout",
-		"*.quiet": classJ2 + "quiet (nodes whose embedded chainnode is tagged json:\"-\")",
+		"|percentile":              "J8 pipeline JSON: InfluxQL function nodes with parameters (percentile, top/bottom, movingAverage, elapsed, holtWinters) are read back with zero parameters in their reducers (only the args list is restored)", "|movingAverage": "J8 pipeline JSON: InfluxQL function nodes with parameters (percentile, top/bottom, movingAverage, elapsed, holtWinters) are read back with zero parameters in their reducers (only the args list is restored)",
+		"|top":           "J8 pipeline JSON: InfluxQL function nodes with parameters (percentile, top/bottom, movingAverage, elapsed, holtWinters) are read back with zero parameters in their reducers (only the args list is restored)",
+		"|bottom":        "J8 pipeline JSON: InfluxQL function nodes with parameters (percentile, top/bottom, movingAverage, elapsed, holtWinters) are read back with zero parameters in their reducers (only the args list is restored)",
+		"~any-int":       "J7 pipeline JSON: an integer value of an untyped property (default/sideload field, fill, handler attribute) is read back as a float",
+		"|barrier":       "J6 pipeline JSON: node kind unknown to Unmarshal: barrier",
+		"|trickle":       "J6 pipeline JSON: node kind unknown to Unmarshal: trickle",
+		"~star":          "J4 pipeline JSON: a '*' group-by dimension is read back as a generic map, not a star node",
+		"|queryFlux":     "J3 pipeline JSON: node cannot be read back, a duration is written as a string and decoded as a number: queryFlux.period",
+		"|httpPost":      "J3 pipeline JSON: node cannot be read back, a duration is written as a string and decoded as a number: httpPost.timeout",
+		"*.quiet":        classJ2 + "quiet (nodes whose embedded chainnode is tagged json:\"-\")",
 		"+groupBy.quiet": "", "+alert.quiet": "", "+barrier.quiet": "", "+combine.quiet": "", "+httpOut.quiet": "", "+httpPost.quiet": "", "+log.quiet": "", "+sideload.quiet": "",
 	},
 	"tick": {
-		"~combined-lambda": "K3 format of an AST built without the parser: lambdas combined by the pipeline itself (deadman(…, lambda), repeated from().where()) are joined with AND without parentheses",
+		"~combined-lambda":        "K3 format of an AST built without the parser: lambdas combined by the pipeline itself (deadman(…, lambda), repeated from().where()) are joined with AND without parentheses",
 		"alert.email.toTemplates": "T9 pipeline/tick AST.Build fails on an email handler with toTemplates (unsupported literal type []string)",
-		"alert.discord": classT2 + "alert discord handler", "alert.category": classT2 + "alert.category",
+		"alert.discord":           classT2 + "alert discord handler", "alert.category": classT2 + "alert.category",
 		"alert.opsGenie2.recoveryAction": classT2 + "opsGenie2.recoveryAction", "alert.opsGenie2.details": classT2 + "opsGenie2.details",
-		"alert.teams": "T6 pipeline/tick renders handlers in a fixed order: a .teams() handler written after .opsGenie()/.opsGenie2() is taken as that handler's teams property",
+		"alert.teams":         "T6 pipeline/tick renders handlers in a fixed order: a .teams() handler written after .opsGenie()/.opsGenie2() is taken as that handler's teams property",
 		"|holtWintersWithFit": "T5 pipeline/tick renders holtWintersWithFit as holtWinters(field, h, m, interval, TRUE) (rejected: too many arguments)",
-		"*.quiet": classT2 + "quiet (rendered for eval only)", "+eval.quiet": "",
+		"*.quiet":             classT2 + "quiet (rendered for eval only)", "+eval.quiet": "",
 	},
 }
 
